@@ -214,6 +214,9 @@ def coverage_counts(out):
 REJ = re.compile(r'<<\s*"REJECT",\s*(\d+),\s*(\d+),\s*\{([^}]*)\}\s*>>', re.S)
 
 
+DIAG = re.compile(r'<<\s*"DIAG",\s*(\d+),\s*\{([^}]*)\}\s*>>', re.S)
+
+
 def split_trace(path, nchunks, start_event='Call'):
     """Cut an ndjson trace into <= nchunks files at `start_event` boundaries; returns [(file, first_line_no)]"""
     lines = open(path).read().splitlines()
@@ -257,8 +260,16 @@ def validate_chunk(module, cfg, chunk, workers=1, timeout=3600, env=None, dfs=Fa
         raise HarnessError('TLC failed on trace %s rc=%s\n%s' % (chunk, r['rc'], r['out'][-5000:]))
     # a violated POSTCONDITION (trace not fully consumed) or invariant is a rejection of the chunk itself
     incomplete = (r['rc'] != 0)
+    diags = {}
+    ndiag = 0
+    for m in DIAG.finditer(r['out']):
+        ndiag += 1
+        for x in m.group(2).split(','):
+            x = x.strip().strip('"')
+            if x:
+                diags[x] = diags.get(x, 0) + 1
     return {'rejects': rejects, 'generated': r['generated'], 'distinct': r['distinct'], 'incomplete': incomplete,
-            'out': r['out'], 'rc': r['rc']}
+            'out': r['out'], 'rc': r['rc'], 'diags': diags, 'ndiag': ndiag}
 
 
 def validate_trace(module, cfg, trace, nchunks=NCPU, start_event='Call', timeout=3600, env=None, dfs=False,
@@ -270,7 +281,7 @@ def validate_trace(module, cfg, trace, nchunks=NCPU, start_event='Call', timeout
         chunks, nlines = [(f, 0) for f in files], sum(sum(1 for _ in open(f)) for f in files)
     else:
         chunks, nlines = split_trace(trace, nchunks, start_event)
-    res = {'rejects': [], 'states': 0, 'transitions': 0, 'events': nlines, 'chunks': len(chunks)}
+    res = {'rejects': [], 'states': 0, 'transitions': 0, 'events': nlines, 'chunks': len(chunks), 'diags': {}, 'ndiag': 0}
     if not chunks:
         return res
     with cf.ThreadPoolExecutor(max_workers=min(len(chunks), NCPU)) as ex:
@@ -278,6 +289,9 @@ def validate_trace(module, cfg, trace, nchunks=NCPU, start_event='Call', timeout
     for (f, off), o in zip(chunks, outs):
         res['states'] += o['distinct']
         res['transitions'] += o['generated']
+        res['ndiag'] += o.get('ndiag', 0)
+        for k_, v_ in o.get('diags', {}).items():
+            res['diags'][k_] = res['diags'].get(k_, 0) + v_
         if o['incomplete']:
             # the trace spec reports rejections by REJECT lines and always consumes the whole chunk; anything
             # else (TLC evaluation error, overflow, un-modelled event) is a machinery problem, never a verdict
